@@ -279,9 +279,16 @@ class UnicodeSubset(MutableSet[CodePoint]):
         if not isinstance(other, Iterable):
             return NotImplemented
         elif isinstance(other, UnicodeSubset):
-            return self._codepoints == other._codepoints
-        else:
+            other = other._codepoints
+        elif not isinstance(other, (list, tuple)):
             return self._codepoints == other
+
+        # Two subsets are equal if they contain the same code points: the lists are compared
+        # in their merged form, because add() can leave adjacent entries unmerged.
+        try:
+            return list(iter_code_points(self._codepoints)) == list(iter_code_points(other))
+        except (TypeError, ValueError, IndexError):
+            return False
 
     def __ior__(self, other: object) -> 'UnicodeSubset':
         if not isinstance(other, Iterable):
